@@ -77,6 +77,32 @@ GROUPS = {
 }
 
 
+def import_time_only(p):
+    """ids of private module-level functions every reference to which stands in module-level code (outside any
+    function body): a call at import time, a decorator of a module-level definition"""
+    out = set()
+    for m in p.modules.values():
+        inside = set()
+        for n in ast.walk(m.tree):
+            if isinstance(n, (ast.FunctionDef, ast.AsyncFunctionDef, ast.Lambda)):
+                for st in (n.body if isinstance(n.body, list) else [n.body]):
+                    for x in ast.walk(st):
+                        inside.add(id(x))
+        for st in m.tree.body:
+            if not (isinstance(st, ast.FunctionDef) and st.name.startswith("_") and not st.name.startswith("__")):
+                continue
+            refs = [x for x in ast.walk(m.tree) if isinstance(x, ast.Name) and x.id == st.name and isinstance(x.ctx, ast.Load)]
+            if not refs or any(id(x) in inside for x in refs):
+                continue
+            elsewhere = any(isinstance(x, ast.ImportFrom) and any(al.name == st.name for al in x.names) for m2 in p.modules.values() if m2 is not m for x in ast.walk(m2.tree)) or any(isinstance(x, ast.Attribute) and x.attr == st.name for m2 in p.modules.values() for x in ast.walk(m2.tree))
+            if elsewhere:
+                continue
+            fi = next((f for f in m.all_funcs if f.node is st), None)
+            if fi is not None:
+                out.add(fi.id)
+    return out
+
+
 class GroupedEffects:
     """one Effects run per entry-point group + one run over the functions no group reaches"""
 
@@ -101,6 +127,11 @@ class GroupedEffects:
             self.runs[g] = Effects(p, a.cg, roles, skip_returns=SKIP_RETURNS, funcs=reach)
             covered |= {f.id for f in reach}
         rest = [f for f in p.all_functions() if f.id not in covered]
+        # private functions that only module-level code refers to (registration helpers, decorators applied at
+        # definition time) run once, under the import lock, before any operation: not part of any operation
+        import_only = import_time_only(p)
+        self.import_time_only = sorted(f.id for f in rest if f.id in import_only or any(f.id.startswith(x + ".") for x in import_only))
+        rest = [f for f in rest if f.id not in self.import_time_only]
         self.uncovered = rest
         if rest:
             self.runs["uncovered"] = Effects(p, a.cg, {}, skip_returns=SKIP_RETURNS, funcs=rest)
